@@ -1168,6 +1168,17 @@ fn check_lir(rep: &mut Report, drv: &mut Driver, lir: &[LirItem], log: Option<&[
         return;
     }
     let ans = drv.ask(&req);
+    // the closed form `lirReady` must agree with the loop
+    let (ans, ready) = match ans.rsplit_once(" ready=") {
+        Some((a, r)) => (a.to_string(), r.to_string()),
+        None => (ans.clone(), "?".into()),
+    };
+    if (ready == "1") != ans.starts_with("lir=ok:") || ready == "?" {
+        rep.mismatch(
+            "the closed form lirReady disagrees with the model's loop cgLir on a real item list",
+            json!({"case": input, "request": req, "loop": ans, "ready": ready}),
+        );
+    }
     if let Some(order) = ans.strip_prefix("lir=ok:") {
         if panicked {
             rep.mismatch(
